@@ -137,6 +137,7 @@ def handle (op : String) (a : Json) : Except String Json := do
       return valJ (ratJ (meanAveragePrecisionML C rows))
     | "average_precision" => return valJ (ratJ (exampleAP (← getMLItem (← fld a "item"))))
     | "jaccard" => return valJ (ratJ (jaccard (← getMLItem (← fld a "item"))))
+    | "multilabel_example_score" => return valJ (ratJ (mlScore (← getMLItem (← fld a "item"))))
     | _ => .error s!"C09: unknown metric function {fn}"
   | "aoef_metrics" =>
     -- the label-keyed mapping an AOEF document stores, read back as a feature list
